@@ -501,6 +501,13 @@ func (w *World) ancestorAt(id, height int) *Block {
 // violation bookkeeping -------------------------------------------------------
 
 func (w *World) violate(n *Node, prop, class, detail string) {
+	if w.sc.PrefixShare && n != nil && n.cfg.Kind == "pollard" {
+		// the pointer forest keys its leaf map by the first 12 bytes of a hash: with
+		// leaves that share a prefix it is known to go wrong (known finding KF1/KF2);
+		// the class says so, and the node is not looked at again in this run
+		class += "/prefix-share"
+		defer func() { n.dead = true }()
+	}
 	v := Violation{Property: prop, Class: class, Step: w.step, Detail: detail}
 	if n != nil {
 		v.Node = n.name
